@@ -5,7 +5,7 @@ patch=$(readlink -f "$1"); prop=$2; dest=$3; budget=${4:-30}
 cd /repo || exit 2
 if [ -n "$(git status --porcelain --untracked-files=no)" ]; then echo "harvest: /repo is not clean"; exit 2; fi
 git apply "$patch" || { echo "harvest: patch does not apply"; exit 2; }
-trap 'cd /repo && git checkout -- . ' EXIT INT TERM
+trap 'cd /repo && git checkout -- . && cd /verif && ./check setup >/dev/null 2>&1' EXIT INT TERM
 cd /verif
 out=$(VERIF_BUDGET_S=$budget ./check run $prop --tier quick 2>&1); code=$?
 rp=$(echo "$out" | grep -E "^VIOLATION property=$prop replay=" | head -1 | sed 's/.*replay=//')
